@@ -836,7 +836,7 @@ func Build(tracks []Track, lay FileLayout) (init []byte, segments [][]byte, trut
 	if lay.Mfra {
 		p := w.open("mfra")
 		for ti := range tracks {
-			if lay.MfraFirstTrackOnly && ti > 0 {
+			if (lay.MfraFirstTrackOnly && ti > 0) || lay.MfraNoTfra {
 				break
 			}
 			ver := uint8(0)
